@@ -208,3 +208,66 @@ def observe(gfa):
 
 def text_lines(gfa):
     return [line_text(l) for l in gfa.lines]
+
+
+# ------------------------------------------------------------------ abstract observation
+def canon_key(line, version):
+    """Canonical identity of a line comparable across Gfa objects (links modulo complement)."""
+    txt = line_text(line)
+    try:
+        c = gtext.canon_lines(txt, version if version in ("gfa1", "gfa2") else None)
+        return c[0] if c else txt
+    except Exception:
+        return txt
+
+
+def abstract(gfa):
+    """Order-free, complement-free observation for comparing different Gfa objects
+    that should denote the same document (C03, C05 restart cross-check)."""
+    v = gfa.version
+    lines = reachable_lines(gfa)
+    doc = gtext.canon_doc([line_text(l) for l in gfa.lines], v if v in ("gfa1", "gfa2") else None)
+    segs = {}
+    others = {}
+    for l in lines:
+        rt = l.record_type
+        back = {}
+        for c, s in back_items(l):
+            back.setdefault(c, []).append(canon_key(s, v))
+        for c in back:
+            back[c].sort()
+        if rt == "S":
+            segs[l.name if is_named(l) else canon_key(l, v)] = {"virtual": bool(l.virtual), "back": back}
+        elif back or l.virtual:
+            others.setdefault(canon_key(l, v), []).append({"virtual": bool(l.virtual), "back": back})
+    paths = {}
+    for p in gfa.paths:
+        if p.record_type == "P":
+            trav = []
+            try:
+                sn = p.segment_names
+                for i, ol in enumerate(p.links):
+                    lk = ol.line
+                    a = sn[i]
+                    # resolved traversal: does the stored form run a -> next as written?
+                    b = sn[(i + 1) % len(sn)]
+                    direct = (lk.from_segment is a.line and lk.from_orient == a.orient and
+                              lk.to_segment is b.line and lk.to_orient == b.orient)
+                    compl = (lk.from_segment is b.line and lk.from_orient == gtext.inv(b.orient) and
+                             lk.to_segment is a.line and lk.to_orient == gtext.inv(a.orient))
+                    if direct and compl:
+                        ok = True     # self-complementary pair: either flag is right
+                    elif direct:
+                        ok = (ol.orient == "+")
+                    elif compl:
+                        ok = (ol.orient == "-")
+                    else:
+                        ok = False    # the link does not join the two segments at all
+                    trav.append([canon_key(lk, v), bool(lk.virtual), ok])
+            except Exception as e:
+                trav.append("<unreadable %s>" % type(e).__name__)
+            paths[p.name] = trav
+    virt = sorted(canon_key(l, v) for l in lines if l.virtual)
+    return {"version": v, "doc": doc, "names": sorted(n for n in gfa.names if isinstance(n, str)),
+            "segs": segs, "others": {k: others[k] for k in sorted(others)}, "paths": paths,
+            "virtual": virt}
